@@ -23,7 +23,7 @@ MANIFEST = dict(
 )
 
 KINDS = ["smh_f64_fnv", "smh_f32_fnv", "smh_f64_no", "smh_f32_no", "smh2_u64_fnv", "smh2_u64_no", "smh2_u32_xx", "ss_u16", "ss_u32",
-         "smh_f64_no32", "smh2_u64_no32", "ss_i32"]
+         "smh_f64_no32", "smh2_u64_no32", "ss_i32", "ss_u16_no"]
 
 
 def run(chk):
